@@ -315,7 +315,9 @@ ASMJIT_FAVOR_SIZE Error EmitHelper::emit_prolog(const FuncFrame& frame) {
   PrologEpilogInfo pei;
   ASMJIT_PROPAGATE(pei.init(frame));
 
-  static const Support::Array<Reg, 2> group_regs = {{ x0, d0 }};
+  // Vector registers are saved as D registers (AAPCS64 only preserves the low 64 bits) unless the calling convention
+  // reserves 16 bytes for each, in which case the whole Q register has to be saved.
+  const Support::Array<Reg, 2> group_regs = {{ x0, frame.save_restore_reg_size(RegGroup::kVec) > 8u ? Reg(q0) : Reg(d0) }};
   static const Support::Array<LoadStoreInstructions, 2> group_insts = {{
     { Inst::kIdStr  , Inst::kIdStp   },
     { Inst::kIdStr_v, Inst::kIdStp_v }
@@ -388,7 +390,7 @@ ASMJIT_FAVOR_SIZE Error EmitHelper::emit_epilog(const FuncFrame& frame) {
   PrologEpilogInfo pei;
   ASMJIT_PROPAGATE(pei.init(frame));
 
-  static const Support::Array<Reg, 2> group_regs = {{ x0, d0 }};
+  const Support::Array<Reg, 2> group_regs = {{ x0, frame.save_restore_reg_size(RegGroup::kVec) > 8u ? Reg(q0) : Reg(d0) }};
   static const Support::Array<LoadStoreInstructions, 2> group_insts = {{
     { Inst::kIdLdr  , Inst::kIdLdp   },
     { Inst::kIdLdr_v, Inst::kIdLdp_v }
